@@ -299,11 +299,12 @@ class _Settings:
 # Expand: C(p) = {p} + sum_a C(pa)
 # --------------------------------------------------------------------------
 class Expand(_Settings, DisjointUnionStrategy):
-    SETTINGS = ("order", "skip", "xf_atom", "xf_rest")
+    SETTINGS = ("order", "skip", "skip_prefixes", "xf_atom", "xf_rest")
 
-    def __init__(self, order=0, skip=(), xf_atom="id", xf_rest="id", **kw):
+    def __init__(self, order=0, skip=(), skip_prefixes=(), xf_atom="id", xf_rest="id", **kw):
         self.order = int(order)
         self.skip = tuple(skip)
+        self.skip_prefixes = tuple(skip_prefixes)
         self.xf_atom = xf_atom
         self.xf_rest = xf_rest
         super().__init__(**kw)
@@ -324,13 +325,16 @@ class Expand(_Settings, DisjointUnionStrategy):
             out.append(transform(nat, FLAGSETS[self.xf_atom if nat.just_prefix else self.xf_rest]))
         return out
 
+    def _applies(self, c: WC) -> bool:
+        return not (c.just_prefix or len(c.prefix) in self.skip or str(c.prefix) in self.skip_prefixes)
+
     def decomposition_function(self, c: WC):
-        if c.just_prefix or len(c.prefix) in self.skip:
+        if not self._applies(c):
             return None
         return tuple(ch for ch, _ in self._children_and_maps(c))
 
     def extra_parameters(self, comb_class, children=None):
-        if comb_class.just_prefix or len(comb_class.prefix) in self.skip:
+        if not self._applies(comb_class):
             raise StrategyDoesNotApply("Strategy does not apply")
         return tuple(m for _, m in self._children_and_maps(comb_class))
 
